@@ -44,6 +44,11 @@ pub enum SortProbe {
     /// `sort_candidates` re-enters the `SolverCache` (candidates of the package of the first
     /// solvable, dependencies availability of each) and records what it saw.
     On,
+    /// `sort_candidates` looks at what the candidates depend on, as conda-style providers
+    /// do to rank by the versions of dependencies: for the first few solvables it asks the
+    /// cache for their dependencies and then for the candidates of every package those
+    /// mention. These nested requests may be the FIRST request for such a package.
+    Deps,
 }
 
 pub struct TableProvider {
@@ -62,6 +67,9 @@ pub struct TableProvider {
     /// filter_candidates answers in reverse listing order (the trait does not promise any
     /// order, and callers must not assume one)
     pub filter_reversed: Cell<bool>,
+    /// `version_sets_in_union` returns an iterator without an upper size bound (as a
+    /// flat_map / from_fn based implementation would)
+    pub union_iter_unbounded: Cell<bool>,
 }
 
 impl TableProvider {
@@ -79,6 +87,7 @@ impl TableProvider {
             probe_log: RefCell::new(Vec::new()),
             log_all: Cell::new(false),
             filter_reversed: Cell::new(false),
+            union_iter_unbounded: Cell::new(false),
         }
     }
 
@@ -217,12 +226,37 @@ impl Interner for TableProvider {
             .union
             .get(&version_set_union.0)
             .unwrap_or_else(|| panic!("HARNESS: unknown union id {}", version_set_union.0));
-        self.u.unions[i]
-            .members
-            .iter()
-            .map(|&m| VersionSetId(self.u.vsets[m].id))
-            .collect::<Vec<_>>()
-            .into_iter()
+        let unbounded = self.union_iter_unbounded.get();
+        UnionIter {
+            inner: self.u.unions[i]
+                .members
+                .iter()
+                .map(|&m| VersionSetId(self.u.vsets[m].id))
+                .collect::<Vec<_>>()
+                .into_iter(),
+            unbounded,
+        }
+    }
+}
+
+/// The members of a union; optionally without an upper size bound, as a flat_map / from_fn
+/// based provider implementation would return.
+pub struct UnionIter {
+    inner: std::vec::IntoIter<VersionSetId>,
+    unbounded: bool,
+}
+
+impl Iterator for UnionIter {
+    type Item = VersionSetId;
+    fn next(&mut self) -> Option<VersionSetId> {
+        self.inner.next()
+    }
+    fn size_hint(&self) -> (usize, Option<usize>) {
+        if self.unbounded {
+            (0, None)
+        } else {
+            self.inner.size_hint()
+        }
     }
 }
 
@@ -300,19 +334,38 @@ impl DependencyProvider for TableProvider {
                 let _ = solver.get_or_cache_candidates(name).await;
             }
         }
+        if self.probe.get() == SortProbe::Deps {
+            for &s in solvables.iter().take(2) {
+                if !self.sref(s).listed {
+                    continue;
+                }
+                if let Ok(Dependencies::Known(k)) = solver.get_or_cache_dependencies(s).await {
+                    for req in k.requirements.iter().take(3) {
+                        let sets: Vec<VersionSetId> = match *req {
+                            Requirement::Single(v) => vec![v],
+                            Requirement::Union(un) => self.version_sets_in_union(un).collect(),
+                        };
+                        for v in sets {
+                            let _ = solver.get_or_cache_candidates(self.version_set_name(v)).await;
+                        }
+                    }
+                }
+            }
+        }
         if let Some(&first) = solvables.first() {
             self.gate(ReqKind::Sort, first.0).await;
         }
         let rank_of = |s: SolvableId| -> usize {
             let r = self.sref(s);
             let p = &self.u.packages[r.pkg];
+            let _ = p;
             if r.listed {
-                p.sort_rank.iter().position(|&i| i == r.idx).unwrap()
+                self.ix.rank_pos[r.pkg][r.idx]
             } else {
                 usize::MAX
             }
         };
-        solvables.sort_by_key(|&s| rank_of(s));
+        solvables.sort_by_cached_key(|&s| rank_of(s));
     }
 
     async fn get_dependencies(&self, solvable: SolvableId) -> Dependencies {
